@@ -1,5 +1,6 @@
 import RasnModel.Lexer.Input
 import RasnModel.Lexer.Context
+import RasnModel.Lexer.Report
 import RasnModel.Proofs.Context
 /-
   C17 — syntax errors are reported at the malformed definition, consistently.
@@ -76,6 +77,41 @@ theorem C17_reported_position_consistent (src : Bytes) (ops : List Op)
 example : let src : Bytes := [97, 98, 10, 99, 100, 10, 101, 102]
     ([Op.slice 4 none, .reset, .slice 1 (some 3)].foldl (step src) (init src)) = ⟨5, 2, 4, 2, 2, 4⟩ := by
   decide
+
+/-! ### which input is reported (model `Lexer/Report`) -/
+open Lexer.Report in
+/-- C17_report_is_a_carried_input: whatever the shape of the parser's error tree (stacks and alternatives
+    nested to any depth), the report is the position of ONE of the inputs the tree carries — all its
+    fields come from the same input. -/
+theorem C17_report_is_a_carried_input (P : St → Prop) : ∀ t : Lexer.Report.Tree, Lexer.Report.All P t → P (Lexer.Report.report t)
+  | .base _, h => by simpa [Lexer.Report.All, Lexer.Report.report] using h
+  | .stack b, h => by
+    simp only [Lexer.Report.All] at h
+    simpa [Lexer.Report.report] using C17_report_is_a_carried_input P b h
+  | .alt first _, h => by
+    simp only [Lexer.Report.All] at h
+    simpa [Lexer.Report.report] using C17_report_is_a_carried_input P first h.1
+
+open Lexer.Report in
+/-- C17_report_consistent: every input a parser can put into an error tree is reached from the initial
+    input by in-range slices and context resets (`C17_line_invariant`), so for ANY error tree over such
+    inputs the reported offset lies inside the source, the reported line is one plus the number of
+    line feeds before the reported offset, and the context start is not behind the offset. -/
+theorem C17_report_consistent (src : Bytes) (t : Lexer.Report.Tree) (h : Lexer.Report.All (Inv src) t) :
+    let r := Lexer.Report.report t
+    r.off ≤ src.length ∧ r.line = 1 + countNL (src.take r.off) ∧ r.ctxOff ≤ r.off ∧ r.ctxLine = 1 + countNL (src.take r.ctxOff) := by
+  have hi := C17_report_is_a_carried_input (Inv src) t h
+  exact ⟨by have := hi.inside; omega, hi.line, hi.ctxBefore, hi.ctxLine⟩
+
+/-- a report that takes its offset from one alternative and its line from another (what an `Alt` arm that
+    merges two alternatives field by field produces) is not consistent: witness "a\nb", inputs at offset 0
+    (line 1) and offset 2 (line 2). -/
+theorem C17_mixed_report_counterexample :
+    let src : Bytes := [97, 10, 98]
+    let a : St := ⟨0, 1, 1, 3, 1, 0⟩
+    let b : St := ⟨2, 2, 1, 1, 1, 0⟩
+    Inv src a ∧ Inv src b ∧ ¬ (({ b with line := a.line } : St).line = 1 + countNL (src.take ({ b with line := a.line } : St).off)) := by
+  refine ⟨⟨by decide, by decide, by decide, by decide⟩, ⟨by decide, by decide, by decide, by decide⟩, by decide⟩
 
 /-! ### the excerpt rendered by `contextualize` (model `Lexer/Context`) -/
 open Lexer.Context Proofs.Context
